@@ -207,6 +207,38 @@ def convert_calls(fn_node, fname, consts):
     return rows
 
 
+def _is_convert_call(n):
+    n = _strip(n)
+    return n.get("kind") == "CallExpr" and _ref(_strip(n["inner"][0])) == "aws_timestamp_convert"
+
+
+def nanos_combine(fn_node):
+    """how `aws_date_time_as_nanos` combines its two conversions: 'saturating' (aws_add_u64_saturating(c1, c2)) or
+    'plain' (c1 + c2, which wraps); anything else is outside the subset"""
+    ret = _first(fn_node, lambda x: x.get("kind") == "ReturnStmt")
+    if ret is None or not ret.get("inner"):
+        raise GenError("aws_date_time_as_nanos: no return expression")
+    e = _strip(ret["inner"][0])
+    if e.get("kind") == "BinaryOperator" and e.get("opcode") == "+" and all(_is_convert_call(c) for c in e["inner"]):
+        return "plain"
+    if e.get("kind") == "CallExpr" and _ref(_strip(e["inner"][0])) == "aws_add_u64_saturating" and len(e["inner"]) == 3 and \
+            all(_is_convert_call(c) for c in e["inner"][1:]):
+        return "saturating"
+    raise GenError("aws_date_time_as_nanos: the return expression is neither `convert + convert` nor "
+                   "`aws_add_u64_saturating(convert, convert)`")
+
+
+def millis_combine(fn_node):
+    """`aws_date_time_as_millis` must be `convert(secs -> ms) + (uint64_t)dt->milliseconds`"""
+    ret = _first(fn_node, lambda x: x.get("kind") == "ReturnStmt")
+    e = _strip(ret["inner"][0]) if ret is not None and ret.get("inner") else {}
+    if e.get("kind") == "BinaryOperator" and e.get("opcode") == "+" and _is_convert_call(e["inner"][0]):
+        m = _strip(e["inner"][1])
+        if m.get("kind") == "MemberExpr" and m.get("name") == "milliseconds":
+            return
+    raise GenError("aws_date_time_as_millis: the return expression is not `convert(...) + (uint64_t)dt->milliseconds`")
+
+
 def generate(repo, cfg_inc):
     inc = log_gen._includes(repo, cfg_inc)
     src = os.path.join(repo, "source", "date_time.c")
@@ -244,6 +276,8 @@ def generate(repo, cfg_inc):
     for f, args in want.items():
         if [c[0] for c in calls[f]] != args:
             raise GenError(f"{f}: aws_timestamp_convert calls changed shape: {calls[f]}")
+    combine = nanos_combine(fns["aws_date_time_as_nanos"])
+    millis_combine(fns["aws_date_time_as_millis"])
     fmt_l = dict(FORMAT_VARS)
     out = ["/-! GENERATED by gen/date_gen.py from /repo's source/date_time.c and headers — do not edit. -/",
            "namespace AwsVerif.Gen.Date", ""]
@@ -279,7 +313,9 @@ def generate(repo, cfg_inc):
     out.append(f"def asMillisSecs : Nat × Nat × Bool := ({cm[1]}, {cm[2]}, {'true' if cm[3] else 'false'})")
     ci = calls["aws_date_time_init_epoch_millis"][0]
     out.append(f"def initMillis : Nat × Nat × Bool := ({ci[1]}, {ci[2]}, {'true' if ci[3] else 'false'})")
+    out.append("/-- `aws_date_time_as_nanos` adds its two conversions with `aws_add_u64_saturating` (true) or with a plain, wrapping `+` (false) -/")
+    out.append(f"def asNanosSaturatingAdd : Bool := {'true' if combine == 'saturating' else 'false'}")
     out += ["", "end AwsVerif.Gen.Date", ""]
     meta = dict(consts=consts, fmts={k: v.decode("latin-1") for k, v in fmts.items()}, months=[(s.decode(), n) for s, n in months],
-                zone=zone, reader=rc, tz=tzsize)
+                zone=zone, reader=rc, tz=tzsize, nanos_combine=combine)
     return "\n".join(out), meta
